@@ -60,9 +60,20 @@ DESC = {
 "C15d": "URIDict.normalize drops the query string", "C16d": "array-form dependencies implemented through the class's own `required` keyword",
 "C17d": "total_errors kept as a running counter that over-counts duplicates at ancestors", "C18d": "validator_for writes unknown $schema URIs into meta_schemas (setdefault)",
 "C19d": "default error format chosen by truthiness (--error-format '' replaced by the default)", "C20d": "CLI builds its own resolver without the selected class's id_of",
+"C01e": "additionalItems loses its `items is boolean` guard (counts against a boolean items)", "C02e": "validate() takes only the first error and leaves the generator suspended (resolver scope stack stays dirty on a reused validator)",
+"C03e": "draft-3 disallow asks the type checker directly (UndefinedTypeCheck escapes instead of UnknownType)", "C04e": "is_valid runs the `type` keyword first and returns early (differs when a sibling $ref hides type / on unknown type names)",
+"C05e": "per-validator memo of is_type answers keyed by (instance class, type): 1.0 and 1.5 share an entry", "C06e": "draft-3 single-schema `extends` gains a spurious index 0 in schema_path",
+"C07e": "RefResolver.in_scope/resolving skip pop_scope on GeneratorExit (user keywords that use them leak scope when iteration is abandoned)", "C08e": "equal() walks containers in step and looks up dict members with .get (missing key equals null)",
+"C09e": "integer-divisor branch of multipleOf uses math.fmod (huge ints converted to float)", "C10e": "resolve_from_url first searches the referrer for an embedded $id, walking enum/const/default values too",
+"C11e": "draft-6/7 integer check goes through float() (OverflowError for huge ints inside check_schema)", "C12e": "FormatChecker.checks inherits the previously declared `raises` when a format is re-registered",
+"C13e": "email / idn-email look for '@' in the NFKC-normalised string (fullwidth @ accepted)", "C14e": "RefResolver.resolve_fragment memo keyed by (id(document), fragment): stale hits once a document is freed",
+"C15e": "urllib fallback of resolve_remote returns from inside the with-block (fetched document never cached)", "C16e": "check_schema picks its meta-validator class through the $schema registry (a versioned child takes over its parent's check_schema)",
+"C17e": "ErrorTree.__getitem__ indexes the recorded instance before consulting its known children", "C18e": "RefResolver.handlers becomes a class attribute updated in place (handlers leak between resolvers)",
+"C19e": "--base-uri resolver built with from_schema + push_scope (local refs resolve against the base URI document)", "C20e": "CLI checks the schema with the $schema-declared class even when -V is given",
 }
 MISSED = set("C03 C07 C12 C15 C16 C20 C02b C06b C07b C10b C11b C14b C19b C01c C02c C06c C10c C12c C15c C16c C18c C19c C20c "
-             "C02d C04d C05d C07d C09d C13d C15d C16d C18d C19d C20d".split())
+             "C02d C04d C05d C07d C09d C13d C15d C16d C18d C19d C20d "
+             "C01e C02e C04e C05e C07e C10e C11e C12e C14e C15e C16e C19e C20e".split())
 rows = []
 for name in sorted(os.listdir(os.path.join(HERE, "seeded"))):
     mp = os.path.join(HERE, "seeded", name, "meta.json")
